@@ -183,7 +183,28 @@ def dispatch(t):
             return 'NOTPROT'
         try:
             kw = {} if nw == '-' else {'network': nw}
-            if cls == 'hdkey':
+            if cls.startswith(('hd:', 'k:')):
+                # every argument of the two import entry points: 'hd:<witness type | def>[:<options>]' / 'k:<options>',
+                # options: m multisig=True, u compressed=False, c compressed=True, p is_private=True, s strict=False (Key only)
+                f = cls.split(':')
+                opts = f[-1] if len(f) > (2 if f[0] == 'hd' else 1) else ''
+                if 'm' in opts and f[0] == 'hd':
+                    kw['multisig'] = True
+                if 'u' in opts:
+                    kw['compressed'] = False
+                if 'c' in opts:
+                    kw['compressed'] = True
+                if 'p' in opts:
+                    kw['is_private'] = True
+                if f[0] == 'hd':
+                    if f[1] != 'def':
+                        kw['witness_type'] = f[1]
+                    key = HDKey(s, password=pwarg(pwr), **kw)
+                else:
+                    if 's' in opts:
+                        kw['strict'] = False
+                    key = Key(s, password=pwarg(pwr), **kw)
+            elif cls == 'hdkey':
                 key = HDKey(s, password=pwarg(pwr), witness_type='legacy', **kw)
             elif cls == 'hdkeydef':
                 key = HDKey(s, password=pwarg(pwr), **kw)
